@@ -13,3 +13,4 @@ open Model.SlicesGen
 #print axioms fromEntryLength_eq
 #print axioms fromJSON_eq
 #print axioms fromMultihash_eq
+#print axioms fromEntryHash_eq
